@@ -91,7 +91,7 @@ def impl_tag(case):
         (input_dir / Path(case["rel"]).parent).mkdir(parents=True, exist_ok=True)
         (input_dir / case["rel"]).write_text("x")
         factory = AdHocTagFactoryFromExecutable(Path(PROBE), TagName("probe"))
-        tag = factory(*case["args"])
+        tag = factory(*case["args"], timeout_ms=120000)     # (load robustness: the tag's default is 3 s)
         f = File(input_dir, Path(case["rel"]))
 
         def call():
